@@ -262,6 +262,9 @@ func c15Worker(in, out string) {
 			}
 			continue
 		}
+		for k := 0; k < 3; k++ {
+			c15RedefineDuringTierUp(w, rng, i)
+		}
 		// concurrent: phases; definitions change only between phases
 		for phase := 0; phase < 4; phase++ {
 			if phase > 0 {
@@ -289,6 +292,82 @@ func c15Worker(in, out string) {
 		w.Case(fmt.Sprintf("conc-%d", i), true)
 	}
 	w.Done()
+}
+
+// c15RedefineDuringTierUp: a cache hit that decides to promote the route is still inside its
+// recompilation (the old definition is large, so that takes a while) when another goroutine
+// invalidates the route and compiles its new definition. If that compile returned the new
+// code, no sequential order of the three calls leaves old code in the cache (a hit never
+// replaces a unit by another definition), so once everything has returned CompileRoute must
+// keep handing out the new code.
+func c15RedefineDuringTierUp(w *mon.W, rng *rand.Rand, idx int) {
+	lit := func(n int64) ast.Expr { return &ast.LiteralExpr{Value: ast.IntLiteral{Value: n}} }
+	oldM, newM := int64(1000+rng.Intn(1000)), int64(5000+rng.Intn(1000))
+	nst := 600 + rng.Intn(1800)
+	body := make([]ast.Statement, 0, nst+1)
+	for i := 0; i < nst; i++ {
+		body = append(body, &ast.AssignStatement{Target: fmt.Sprintf("v%d", i), Value: &ast.BinaryOpExpr{Op: ast.Add, Left: &ast.BinaryOpExpr{Op: ast.Mul, Left: lit(int64(i)), Right: lit(3)}, Right: lit(1)}})
+	}
+	body = append(body, &ast.ReturnStatement{Value: lit(oldM)})
+	oldRoute := &ast.Route{Method: ast.Get, Path: "/redef", Body: body}
+	newRoute := &ast.Route{Method: ast.Get, Path: "/redef", Body: []ast.Statement{&ast.ReturnStatement{Value: lit(newM)}}}
+	run := func(bc []byte) string {
+		o := runVM(bc, nil, 4000000)
+		return c01Show(o)
+	}
+	const name = "redef"
+	thr := []int{4, 10, 20}[rng.Intn(3)]
+	j := jit.NewJITCompilerWithConfig(thr, 0)
+	if _, err := j.CompileRoute(name, oldRoute); err != nil {
+		return
+	}
+	for i := 0; i < thr/2; i++ {
+		j.RecordExecution(name, time.Microsecond)
+	}
+	hits := j.GetStats().CacheHits
+	done := make(chan struct{})
+	go func() {
+		defer close(done)
+		j.CompileRoute(name, oldRoute)
+	}()
+	reached := false
+	for i := 0; i < 200000; i++ {
+		if j.GetStats().CacheHits != hits {
+			reached = true
+			break
+		}
+		if i%50 == 49 {
+			time.Sleep(20 * time.Microsecond)
+		}
+	}
+	for k := rng.Intn(2000); k > 0; k-- { // vary where inside the recompilation the redefinition lands
+		_ = j.GetStats()
+	}
+	j.InvalidateCache(name)
+	bc, err := j.CompileRoute(name, newRoute)
+	<-done
+	w.Count("redefine_during_tier_up_rounds", 1)
+	if !reached || err != nil {
+		w.Count("redefine_during_tier_up_not_overlapping", 1)
+		return
+	}
+	want := run(func() []byte { b, _ := compiler.NewCompilerWithOptLevel(compiler.OptNone).CompileRoute(newRoute); return b }())
+	if run(bc) != want {
+		w.Count("redefine_during_tier_up_ambiguous(order: old compile between invalidate and new compile)", 1)
+		j.InvalidateCache(name)
+		return
+	}
+	for k := 0; k < 3; k++ {
+		b2, err := j.CompileRoute(name, newRoute)
+		if err != nil {
+			return
+		}
+		if got := run(b2); got != want {
+			w.Violate("stale-after-invalidate:recompilation-in-flight", fmt.Sprintf("a tier-up recompilation of the old definition (answers %d) was in flight while the route was invalidated and its new definition (answers %d) compiled and handed out; afterwards CompileRoute serves %s", oldM, newM, got),
+				map[string]interface{}{"old_definition_statements": nst, "hot_threshold": thr, "round": idx, "recompilations": j.GetStats().Recompilations})
+			return
+		}
+	}
 }
 
 func max0(n int) int {
